@@ -421,7 +421,7 @@ func TestVerifC10SortMergeReduce(t *testing.T) {
 			t.Errorf("replay: %v", err)
 		}
 	}
-	if only {
+	if only || t.Failed() {
 		return
 	}
 	defer rec.Commit(testName)
